@@ -27,6 +27,7 @@ type c07Scenario struct {
 	Bystanders int    `json:"bystanders"`
 	Exchanges  int    `json:"exchanges"` // request/response pairs per bystander before and after the fault
 	Disable    bool   `json:"disable_recovery,omitempty"`
+	TLS        bool   `json:"tls,omitempty"` // the server runs with a TLS configuration; bystanders and new connections are TLS clients
 }
 
 type c07Custom struct{ X int }
@@ -114,9 +115,19 @@ func c07Run(index int, raw json.RawMessage) lab.WorkerResult {
 	}
 	_ = mux.Unbind(h("unbind"))
 	_ = mux.DefaultRoute(h("default"))
-	srv, err := lab.StartServer(mux, lab.ServerOpts{DisableRecovery: s.Disable})
+	so := lab.ServerOpts{DisableRecovery: s.Disable}
+	if s.TLS {
+		so.TLS = main.ServerTLS()
+	}
+	srv, err := lab.StartServer(mux, so)
 	if err != nil {
 		return lab.WorkerResult{Skipped: err.Error()}
+	}
+	dial := func() (*lab.Client, error) {
+		if s.TLS {
+			return lab.DialTLS(srv.Addr, main.ClientTLS(false))
+		}
+		return lab.Dial(srv.Addr)
 	}
 	fail := func(fp, format string, a ...interface{}) lab.WorkerResult {
 		return lab.WorkerResult{OK: false, FP: fp, Msg: fmt.Sprintf(format, a...), Delivered: true}
@@ -128,7 +139,7 @@ func c07Run(index int, raw json.RawMessage) lab.WorkerResult {
 	}
 	bys := make([]*by, s.Bystanders)
 	for i := range bys {
-		cl, err := lab.Dial(srv.Addr)
+		cl, err := dial()
 		if err != nil {
 			return lab.WorkerResult{Skipped: err.Error()}
 		}
@@ -209,8 +220,21 @@ func c07Run(index int, raw json.RawMessage) lab.WorkerResult {
 	delivered := false
 	faultID := int64(c07FaultTag)*tagStride + 1
 	switch s.Fault {
+	case "tls-silent-client", "tls-partial-hello":
+		// a client that connects to the TLS port and stalls before / inside its ClientHello,
+		// keeping the connection open while everybody else goes on
+		raw, err := net.DialTimeout("tcp", srv.Addr, 5*time.Second)
+		if err == nil {
+			defer raw.Close()
+			if s.Fault == "tls-partial-hello" {
+				h := clientHello()
+				_, _ = raw.Write(h[:len(h)/2])
+			}
+			time.Sleep(30 * time.Millisecond)
+			delivered = true
+		}
 	case "handler-panic":
-		cl, err := lab.Dial(srv.Addr)
+		cl, err := dial()
 		if err != nil {
 			break
 		}
@@ -258,12 +282,12 @@ func c07Run(index int, raw json.RawMessage) lab.WorkerResult {
 			delivered = true
 		}
 	case "write-to-gone", "never-reads":
-		cl, err := lab.Dial(srv.Addr)
+		cl, err := dial()
 		if err == nil {
 			_ = cl.Send(simpleReq("search", faultID).Bytes())
 			if s.Fault == "write-to-gone" {
 				time.Sleep(2 * time.Millisecond)
-				rst(cl.C)
+				rst(rawConn(cl.C))
 				deadline := time.Now().Add(3 * time.Second)
 				for atomic.LoadInt32(&panicReached) == 0 && time.Now().Before(deadline) {
 					time.Sleep(time.Millisecond)
@@ -312,7 +336,7 @@ func c07Run(index int, raw json.RawMessage) lab.WorkerResult {
 	served := waitExchanges(int64(s.Exchanges))
 	close(stop)
 	wg.Wait()
-	desc := fmt.Sprintf("fault=%s op=%s panic=%s after-write=%v bystanders=%d", s.Fault, s.Op, s.PanicKind, s.AfterWrite, s.Bystanders)
+	desc := fmt.Sprintf("fault=%s op=%s panic=%s after-write=%v bystanders=%d tls=%v", s.Fault, s.Op, s.PanicKind, s.AfterWrite, s.Bystanders, s.TLS)
 	if srv.RunReturned() {
 		err := <-srv.RunErr
 		return fail("run-returned:"+s.Fault, "%s: Server.Run returned (%v): the server stopped accepting connections", desc, err)
@@ -368,7 +392,7 @@ func c07Run(index int, raw json.RawMessage) lab.WorkerResult {
 			return fail("connection-id-reused-after-accept-error", "%s: %s (IDs by tag: %v)", desc, problem, connIDs)
 		}
 	}
-	ncl, err := lab.Dial(srv.Addr)
+	ncl, err := dial()
 	if err != nil {
 		return fail("new-connection-refused:"+s.Fault, "%s: a new connection after the fault fails: %v", desc, err)
 	}
@@ -420,6 +444,13 @@ func c07Enumerate() []c07Scenario {
 	for _, f := range []string{"malformed", "rst-midframe", "truncated-fin", "write-to-gone", "never-reads", "emfile"} {
 		out = append(out, c07Scenario{Fault: f})
 	}
+	// the same against a server with a TLS configuration, plus clients stalling in the handshake
+	for _, f := range []string{"tls-silent-client", "tls-partial-hello", "malformed", "rst-midframe", "write-to-gone", "never-reads"} {
+		out = append(out, c07Scenario{Fault: f, TLS: true})
+	}
+	for _, op := range []string{"search", "unbind", "default"} {
+		out = append(out, c07Scenario{Fault: "handler-panic", Op: op, PanicKind: "error", TLS: true})
+	}
 	return out
 }
 
@@ -440,7 +471,7 @@ func c07Exec(c c07Batch, st *lab.Stats) *lab.Fail {
 	var first *lab.Fail
 	for i, r := range res {
 		s := c.Scenarios[i]
-		cls := []string{"fault=" + s.Fault, fmt.Sprintf("bystanders=%d", s.Bystanders)}
+		cls := []string{"fault=" + s.Fault, fmt.Sprintf("bystanders=%d", s.Bystanders), fmt.Sprintf("tls=%v", s.TLS)}
 		if s.Fault == "handler-panic" {
 			cls = append(cls, "panic-op="+s.Op, "panic-kind="+s.PanicKind, fmt.Sprintf("after-write=%v", s.AfterWrite))
 		}
@@ -485,7 +516,7 @@ func tailOf(s string, n int) string {
 func TestC07Enum(t *testing.T) {
 	lab.SkipIfReplayOther(t, "enum")
 	st := lab.GetStats("C07", "enum")
-	st.SetRule("complete enumeration: handler panic (string / error / nil dereference / custom value) before and after writing a response in the handler of every operation (bind, search, modify, add, delete, extended, StartTLS, unbind, default route) plus malformed frame, RST mid-frame, truncated frame + FIN, handler writing to a client that has gone, client that never reads while the handler writes 6 MB, descriptor exhaustion at accept (RLIMIT_NOFILE lowered in the child); each inside verified request/response traffic of 2 bystander connections, followed by a new connection; executed in worker child processes; oracle = child survives, Run has not returned, every bystander response correct, new connection served; non-trivial = fault actually delivered while >= 1 bystander was exchanging requests; distinct by scenario")
+	st.SetRule("complete enumeration: handler panic (string / error / nil dereference / custom value) before and after writing a response in the handler of every operation (bind, search, modify, add, delete, extended, StartTLS, unbind, default route) plus malformed frame, RST mid-frame, truncated frame + FIN, handler writing to a client that has gone, client that never reads while the handler writes 6 MB, descriptor exhaustion at accept (RLIMIT_NOFILE lowered in the child); against a TLS-configured server additionally a client that connects and stays silent or stalls inside its ClientHello; each inside verified request/response traffic of 2 bystander connections, followed by a new connection; executed in worker child processes; oracle = child survives, Run has not returned, every bystander response correct, new connection served; non-trivial = fault actually delivered while >= 1 bystander was exchanging requests; distinct by scenario")
 	defer lab.FlushAll()
 	if lab.ReplayInto(t, st, "enum", c07Exec) {
 		return
